@@ -15,6 +15,7 @@ from gemclus.gemini._utils import _str_to_gemini  # noqa: E402
 from gemclus.linear import LinearModel  # noqa: E402
 
 QUICK_SCALE = 2  # quick budgets below are multiplied by this (kept at about half a minute on 8 processes)
+THOROUGH_SCALE = 3  # thorough budgets below are multiplied by this (about ten minutes on 16 processes)
 
 RULE = ("P = softmax(scale*Z), scale in {0.05..20}, clipped to [1e-9,1-1e-9] and renormalised; n in [1,10] (<=8 for "
         "Wasserstein LPs), K in [2,6]; affinity from named scikit-learn kernels/metrics with drawn parameters, callables, "
